@@ -82,7 +82,13 @@ func (fs frameSpec) build(rng *rand.Rand) []byte {
 		tl = 0
 	}
 	h[2], h[3] = byte(tl>>8), byte(tl)
-	h[8] = 64
+	// fields that say nothing about whose datagram this is: type of service, identification, don't-fragment, time to live
+	h[1] = byte(pick(rng, 0, 0, 0x10, rng.Intn(256)))
+	h[4], h[5] = byte(rng.Intn(256)), byte(rng.Intn(256))
+	if rng.Intn(2) == 0 {
+		h[6] = 0x40 // DF, as most stacks send
+	}
+	h[8] = byte(pick(rng, 64, 64, 1, 255, 128))
 	h[9] = byte(fs.proto)
 	copy(h[12:16], fs.src.To4())
 	copy(h[16:20], fs.dst.To4())
@@ -282,6 +288,7 @@ func genC18(o *Out, rng *rand.Rand, tier string) {
 			boundIP = net.IPv4(10, 0, 0, byte(1+rng.Intn(3)))
 		}
 		bound := &net.UDPAddr{IP: boundIP, Port: pick(rng, 68, 68, 1068)}
+		unbound := rng.Intn(7) == 0 // no bound address at all: every UDP datagram is this connection's
 		nf := 1 + rng.Intn(5)
 		sc := &scriptConn{}
 		var frames []any
@@ -299,6 +306,11 @@ func genC18(o *Out, rng *rand.Rand, tier string) {
 			bip = B(boundIP.To4())
 		}
 		rec["bound"] = map[string]any{"ip": bip, "port": bound.Port}
+		if unbound {
+			c = nclient4.NewBroadcastUDPConn(sc, nil)
+			rec["bound"] = map[string]any{"ip": []int{}, "port": -1}
+		}
+		var held []*net.UDPAddr // the addresses handed out, looked at only after the last read
 		func() {
 			defer func() {
 				if r := recover(); r != nil {
@@ -313,13 +325,17 @@ func genC18(o *Out, rng *rand.Rand, tier string) {
 					return
 				}
 				u, _ := addr.(*net.UDPAddr)
-				src := map[string]any{"ip": []int{}, "port": -1}
-				if u != nil {
-					src = endpoint(u.IP, u.Port)
-				}
-				res = append(res, map[string]any{"payload": B(b[:n]), "src": src})
+				held = append(held, u)
+				res = append(res, map[string]any{"payload": B(b[:n])})
 			}
 		}()
+		for i, u := range held {
+			src := map[string]any{"ip": []int{}, "port": -1}
+			if u != nil {
+				src = endpoint(u.IP, u.Port)
+			}
+			res[i].(map[string]any)["src"] = src
+		}
 		rec["res"] = res
 		key := []byte{}
 		for _, f := range sc.frames {
